@@ -11,6 +11,8 @@ from .guards import NEG
 from .ir import INT
 from .build import AnalysisBroken
 
+SWAPPED = {'slt': 'sgt', 'sgt': 'slt', 'sle': 'sge', 'sge': 'sle', 'ult': 'ugt', 'ugt': 'ult', 'ule': 'uge', 'uge': 'ule', 'eq': 'eq', 'ne': 'ne'}
+
 class Atom:
     __slots__ = ('pred', 'a', 'b', 'width', 'ins', 'raw')
     def __init__(self, pred, a, b, width, ins, raw):
@@ -25,7 +27,11 @@ class Path:
         out = []
         for at, tv in self.conds:
             if isinstance(at, Atom):
-                out.append((at.pred if tv else NEG[at.pred], at.a, at.b, at.width, at.ins))
+                pred, a, b = at.pred if tv else NEG[at.pred], at.a, at.b
+                # constants (and null) on the right-hand side, whichever way the source wrote the comparison
+                if (INT.match(a) or a == 'null') and not (INT.match(b) or b == 'null'):
+                    a, b, pred = b, a, SWAPPED[pred]
+                out.append((pred, a, b, at.width, at.ins))
         return out
     def __repr__(self):
         return f'<path ret={self.ret} ' + ' '.join(f'{"" if t else "!"}{a}' for a, t in self.conds) + '>'
@@ -36,7 +42,7 @@ def _eval(pred, a, b, w=32):
     return {'eq': a == b, 'ne': a != b, 'slt': a < b, 'sle': a <= b, 'sgt': a > b, 'sge': a >= b,
             'ult': a < b, 'ule': a <= b, 'ugt': a > b, 'uge': a >= b}[pred]
 
-def enumerate_paths(prog, fn, limit=20000, split_returns=True):
+def enumerate_paths(prog, fn, limit=20000, split_returns=True, split_stores=True):
     C = Canon(prog, fn)
     out = []
 
@@ -78,7 +84,7 @@ def enumerate_paths(prog, fn, limit=20000, split_returns=True):
         if d.op == 'select' and d.ty == 'i1':
             c, a, b = d.ops
             return decide(c, st, lambda s2, tc: decide(a if tc else b, s2, record))
-        if d.op == 'phi' and d.ty == 'i1':
+        if d.op == 'phi' and d.ty == 'i1' and not str(st.env.get(v, '')).startswith('loop%'):
             r = st.env.get(v)
             if r in ('true', 'false'):
                 return record(st, r == 'true')
@@ -128,6 +134,37 @@ def enumerate_paths(prog, fn, limit=20000, split_returns=True):
             i += 1
         return k(st)
 
+    def bool_source(v, st, depth=0):
+        """if integer value v is, on this path, the extension of an i1: (i1 operand, value when true), else None"""
+        d = fn.defs.get(v)
+        if d is None or depth > 6:
+            return None
+        if d.op in ('zext', 'sext') and d.optys and d.optys[0] == 'i1':
+            return d.ops[0], (1 if d.op == 'zext' else -1)
+        if d.op in ('zext', 'sext', 'trunc'):
+            return bool_source(d.ops[0], st, depth + 1)
+        if d.op == 'phi':
+            src = st.env.get(('phisrc', v))
+            if src is not None and not str(st.env.get(v, '')).startswith('loop%'):
+                return bool_source(src, st, depth + 1)
+        return None
+
+    def resolve_bools(b, st, i, k):
+        """values stored in block b that are extensions of a condition are split into their two outcomes; k(state)"""
+        insts = b.insts
+        while i < len(insts):
+            ins = insts[i]
+            if ins.op == 'store' and ins.ops[0] not in st.env:
+                bs = bool_source(ins.ops[0], st)
+                if bs is not None:
+                    idx = i
+                    def cont(s2, t, ins=ins, bs=bs, idx=idx):
+                        s2.env[ins.ops[0]] = str(bs[1]) if t else '0'
+                        resolve_bools(b, s2, idx + 1, k)
+                    return decide(bs[0], st, cont)
+            i += 1
+        return k(st)
+
     def walk(b, prev, st, visited, blocks, events):
         if len(out) > limit:
             raise AnalysisBroken(f'{fn.name}: too many paths for obligation checking')
@@ -143,13 +180,20 @@ def enumerate_paths(prog, fn, limit=20000, split_returns=True):
                     if d is not None and d.bb in cyc:
                         del st.decided[key]
         newenv = {}
+        reenter = b in blocks
         for ins in b.insts:
             if ins.op == 'phi' and prev is not None:
                 for v, lab in ins.incoming:
                     if lab == prev.label:
-                        newenv[ins.res] = C.val(v, st.env)
-                        if ins.ty == 'i1' and v not in ('true', 'false'):
-                            newenv[('phisrc', ins.res)] = v
+                        if reenter:
+                            # second arrival at a loop header: the loop-carried values are arbitrary from here on (havoc);
+                            # the in-loop edges are already used up, so the path continues with the loop's exit
+                            newenv[ins.res] = f'loop{ins.res}'
+                            newenv.pop(('phisrc', ins.res), None); st.env.pop(('phisrc', ins.res), None)
+                        else:
+                            newenv[ins.res] = C.val(v, st.env)
+                            if v not in ('true', 'false') and not INT.match(v):
+                                newenv[('phisrc', ins.res)] = v
         st.env.update(newenv)
         blocks = blocks + [b]
         def after_selects(s2):
@@ -159,10 +203,10 @@ def enumerate_paths(prog, fn, limit=20000, split_returns=True):
                 if not t.ops:
                     out.append(Path(s2.conds, 'void', blocks, s2.env, ev)); return
                 rv = t.ops[0]
-                d = fn.defs.get(rv)
-                if split_returns and d is not None and d.op in ('zext', 'sext') and d.optys and d.optys[0] == 'i1':
-                    one = '1' if d.op == 'zext' else '-1'
-                    return decide(d.ops[0], s2, lambda s3, tt: out.append(Path(s3.conds, one if tt else '0', blocks, s3.env, ev)))
+                bs = bool_source(rv, s2) if split_returns and not INT.match(C.val(rv, s2.env)) else None
+                if bs is not None:
+                    one = str(bs[1])
+                    return decide(bs[0], s2, lambda s3, tt: out.append(Path(s3.conds, one if tt else '0', blocks, s3.env, ev)))
                 out.append(Path(s2.conds, C.val(rv, s2.env), blocks, s2.env, ev)); return
             if t.op == 'unreachable':
                 return
@@ -193,7 +237,7 @@ def enumerate_paths(prog, fn, limit=20000, split_returns=True):
                 if (b, nb) in visited:
                     continue
                 walk(nb, b, s2, visited | {(b, nb)}, blocks, ev)
-        resolve_selects(b, st, 0, after_selects)
+        resolve_selects(b, st, 0, (lambda s2: resolve_bools(b, s2, 0, after_selects)) if split_stores else after_selects)
 
     walk(fn.entry, None, State({}, [], {}), frozenset(), [], [])
     return out
